@@ -11,36 +11,43 @@ too slow for tables of this size, `Nat` arithmetic is GMP-accelerated.
 namespace Avo
 
 namespace Name
-/-- bytes of an encoded name, most significant first (`fuel` ≥ number of bytes;
-the number itself is always enough fuel) -/
+/-!
+An ASCII name `s` travels as the number `bytes(s)·2^40 + len(s)·2^32 + crc32(s)`
+(big-endian bytes).  The low 32 bits are a checksum that carries no meaning: the
+Lean kernel hashes numeric literals by their low bits and degrades
+quadratically when thousands of literals share them (texts with a common
+ending do).  Two names emitted by the translator are equal iff their encodings
+are; computed names are compared through `key` (bytes and length).
+-/
+/-- the bytes of the name as a number -/
+def val (n : Nat) : Nat := n >>> 40
+/-- its length in bytes -/
+def len (n : Nat) : Nat := (n >>> 32) % 256
+/-- bytes and length, without the checksum: `val·256 + len` -/
+def key (n : Nat) : Nat := n >>> 32
+def kval (k : Nat) : Nat := k >>> 8
+def klen (k : Nat) : Nat := k % 256
+def mkKey (v l : Nat) : Nat := (v <<< 8) ||| l
+/-- the length field is the number of base-256 digits of the value -/
+def wfKey (k : Nat) : Bool :=
+  if klen k = 0 then kval k == 0 else 256 ^ (klen k - 1) ≤ kval k && kval k < 256 ^ klen k
+/-- concatenation on keys -/
+def kcat (a b : Nat) : Nat := mkKey ((kval a <<< (8 * klen b)) ||| kval b) (klen a + klen b)
+/-- join keys with a separator key -/
+def kjoin (sep : Nat) : List Nat → Nat
+  | [] => 0
+  | x :: xs => xs.foldl (fun acc y => kcat (kcat acc sep) y) x
+
+/-- bytes of a value, most significant first (driver / rendering only) -/
 def toBytesAux : Nat → Nat → List Nat → List Nat
   | 0, _, acc => acc
   | fuel+1, n, acc => if n = 0 then acc else toBytesAux fuel (n / 256) (n % 256 :: acc)
-def toBytes (n : Nat) : List Nat := toBytesAux n n []
-/-- number of bits of `8 * (number of bytes of n)` -/
-def bitLenAux : Nat → Nat → Nat → Nat
-  | 0, _, acc => acc
-  | fuel+1, n, acc => if n = 0 then acc else bitLenAux fuel (n / 256) (acc + 8)
-def bitLen (n : Nat) : Nat := bitLenAux n n 0
-def byteLen (n : Nat) : Nat := bitLen n / 8
-/-- concatenation of encoded names -/
-def cat (a b : Nat) : Nat := (a <<< bitLen b) ||| b
-def catAll (xs : List Nat) : Nat := xs.foldl cat 0
-/-- join with a one-byte separator -/
-def join (sep : Nat) : List Nat → Nat
-  | [] => 0
-  | x :: xs => xs.foldl (fun acc y => cat (cat acc sep) y) x
+def toBytes (v : Nat) : List Nat := toBytesAux v v []
 def ofBytes (bs : List Nat) : Nat := bs.foldl (fun a b => a * 256 + b) 0
-def toStr (n : Nat) : String := String.ofList ((toBytes n).map Char.ofNat)
-def ofStr (s : String) : Nat := ofBytes (s.toList.map Char.toNat)
-
-/-- split an encoded text at spaces (0x20) into encoded words -/
-def wordsAux : List Nat → Nat → Bool → List Nat → List Nat
-  | [], cur, has, acc => (if has then cur :: acc else acc).reverse
-  | b :: bs, cur, has, acc =>
-    if b = 0x20 then wordsAux bs 0 false (if has then cur :: acc else acc)
-    else wordsAux bs (cur * 256 + b) true acc
-def words (n : Nat) : List Nat := wordsAux (toBytes n) 0 false []
+/-- the string of an encoded name (driver only) -/
+def toStr (n : Nat) : String := String.ofList ((toBytes (val n)).map Char.ofNat)
+/-- key of a string (driver only) -/
+def keyOfStr (s : String) : Nat := mkKey (ofBytes (s.toList.map Char.toNat)) s.length
 end Name
 
 namespace Instr
@@ -147,84 +154,84 @@ def OpClass.all : List OpClass := [.c1, .c3, .al, .ax, .cl, .eax, .imm16, .imm2u
 
 /-- name of the checker function in operand/checks.go -/
 def OpClass.checker : OpClass → Nat
-  | .c1 => 0x497331  -- Is1
-  | .c3 => 0x497333  -- Is3
-  | .al => 0x4973414c  -- IsAL
-  | .ax => 0x49734158  -- IsAX
-  | .cl => 0x4973434c  -- IsCL
-  | .eax => 0x4973454158  -- IsEAX
-  | .imm16 => 0x4973494d4d3136  -- IsIMM16
-  | .imm2u => 0x4973494d4d3255  -- IsIMM2U
-  | .imm32 => 0x4973494d4d3332  -- IsIMM32
-  | .imm64 => 0x4973494d4d3634  -- IsIMM64
-  | .imm8 => 0x4973494d4d38  -- IsIMM8
-  | .k => 0x49734b  -- IsK
-  | .m => 0x49734d  -- IsM
-  | .m128 => 0x49734d313238  -- IsM128
-  | .m16 => 0x49734d3136  -- IsM16
-  | .m256 => 0x49734d323536  -- IsM256
-  | .m32 => 0x49734d3332  -- IsM32
-  | .m512 => 0x49734d353132  -- IsM512
-  | .m64 => 0x49734d3634  -- IsM64
-  | .m8 => 0x49734d38  -- IsM8
-  | .r16 => 0x4973523136  -- IsR16
-  | .r32 => 0x4973523332  -- IsR32
-  | .r64 => 0x4973523634  -- IsR64
-  | .r8 => 0x49735238  -- IsR8
-  | .rax => 0x4973524158  -- IsRAX
-  | .rel32 => 0x497352454c3332  -- IsREL32
-  | .rel8 => 0x497352454c38  -- IsREL8
-  | .vm32x => 0x4973564d333258  -- IsVM32X
-  | .vm32y => 0x4973564d333259  -- IsVM32Y
-  | .vm32z => 0x4973564d33325a  -- IsVM32Z
-  | .vm64x => 0x4973564d363458  -- IsVM64X
-  | .vm64y => 0x4973564d363459  -- IsVM64Y
-  | .vm64z => 0x4973564d36345a  -- IsVM64Z
-  | .xmm => 0x4973584d4d  -- IsXMM
-  | .xmm0 => 0x4973584d4d30  -- IsXMM0
-  | .ymm => 0x4973594d4d  -- IsYMM
-  | .zmm => 0x49735a4d4d  -- IsZMM
+  | .c1 => 0x49733103d5c64552  -- Is1
+  | .c3 => 0x497333033bc8247e  -- Is3
+  | .al => 0x4973414c0407e76d5d  -- IsAL
+  | .ax => 0x49734158041d3db920  -- IsAX
+  | .cl => 0x4973434c0435d10fdf  -- IsCL
+  | .eax => 0x49734541580510c82afe  -- IsEAX
+  | .imm16 => 0x4973494d4d3136078c71a6db  -- IsIMM16
+  | .imm2u => 0x4973494d4d32550773e7c5fa  -- IsIMM2U
+  | .imm32 => 0x4973494d4d333207b92a0040  -- IsIMM32
+  | .imm64 => 0x4973494d4d3634072d3e5130  -- IsIMM64
+  | .imm8 => 0x4973494d4d3806d46ce0ea  -- IsIMM8
+  | .k => 0x49734b036516dd70  -- IsK
+  | .m => 0x49734d038c757845  -- IsM
+  | .m128 => 0x49734d31323806ae4283b0  -- IsM128
+  | .m16 => 0x49734d3136059bee4eef  -- IsM16
+  | .m256 => 0x49734d3235360604fd8629  -- IsM256
+  | .m32 => 0x49734d333205aeb5e874  -- IsM32
+  | .m512 => 0x49734d3531320662b391b1  -- IsM512
+  | .m64 => 0x49734d3634053aa1b904  -- IsM64
+  | .m8 => 0x49734d3804fc3a9774  -- IsM8
+  | .r16 => 0x4973523136058c94aaa2  -- IsR16
+  | .r32 => 0x497352333205b9cf0c39  -- IsR32
+  | .r64 => 0x4973523634052ddb5d49  -- IsR64
+  | .r8 => 0x4973523804316099ea  -- IsR8
+  | .rax => 0x49735241580509a19f0b  -- IsRAX
+  | .rel32 => 0x497352454c3332076a6ce40b  -- IsREL32
+  | .rel8 => 0x497352454c3806447c508d  -- IsREL8
+  | .vm32x => 0x4973564d33325807b189fc4e  -- IsVM32X
+  | .vm32y => 0x4973564d33325907c68eccd8  -- IsVM32Y
+  | .vm32z => 0x4973564d33325a075f879d62  -- IsVM32Z
+  | .vm64x => 0x4973564d36345807e1189923  -- IsVM64X
+  | .vm64y => 0x4973564d36345907961fa9b5  -- IsVM64Y
+  | .vm64z => 0x4973564d36345a070f16f80f  -- IsVM64Z
+  | .xmm => 0x4973584d4d05c55eb13a  -- IsXMM
+  | .xmm0 => 0x4973584d4d300632125822  -- IsXMM0
+  | .ymm => 0x4973594d4d05c49cdb0d  -- IsYMM
+  | .zmm => 0x49735a4d4d05c6da6554  -- IsZMM
 
 /-- name of the class in the "Forms:" documentation rows (api.CheckerName:
 checker = "Is" + upper-case of this) -/
 def OpClass.doc : OpClass → Nat
-  | .c1 => 0x31  -- 1
-  | .c3 => 0x33  -- 3
-  | .al => 0x616c  -- al
-  | .ax => 0x6178  -- ax
-  | .cl => 0x636c  -- cl
-  | .eax => 0x656178  -- eax
-  | .imm16 => 0x696d6d3136  -- imm16
-  | .imm2u => 0x696d6d3275  -- imm2u
-  | .imm32 => 0x696d6d3332  -- imm32
-  | .imm64 => 0x696d6d3634  -- imm64
-  | .imm8 => 0x696d6d38  -- imm8
-  | .k => 0x6b  -- k
-  | .m => 0x6d  -- m
-  | .m128 => 0x6d313238  -- m128
-  | .m16 => 0x6d3136  -- m16
-  | .m256 => 0x6d323536  -- m256
-  | .m32 => 0x6d3332  -- m32
-  | .m512 => 0x6d353132  -- m512
-  | .m64 => 0x6d3634  -- m64
-  | .m8 => 0x6d38  -- m8
-  | .r16 => 0x723136  -- r16
-  | .r32 => 0x723332  -- r32
-  | .r64 => 0x723634  -- r64
-  | .r8 => 0x7238  -- r8
-  | .rax => 0x726178  -- rax
-  | .rel32 => 0x72656c3332  -- rel32
-  | .rel8 => 0x72656c38  -- rel8
-  | .vm32x => 0x766d333278  -- vm32x
-  | .vm32y => 0x766d333279  -- vm32y
-  | .vm32z => 0x766d33327a  -- vm32z
-  | .vm64x => 0x766d363478  -- vm64x
-  | .vm64y => 0x766d363479  -- vm64y
-  | .vm64z => 0x766d36347a  -- vm64z
-  | .xmm => 0x786d6d  -- xmm
-  | .xmm0 => 0x786d6d30  -- xmm0
-  | .ymm => 0x796d6d  -- ymm
-  | .zmm => 0x7a6d6d  -- zmm
+  | .c1 => 0x310183dcefb7  -- 1
+  | .c3 => 0x33016dd28e9b  -- 3
+  | .al => 0x616c02793b656a  -- al
+  | .ax => 0x61780263e1b117  -- ax
+  | .cl => 0x636c024b0d07e8  -- cl
+  | .eax => 0x6561780393657331  -- eax
+  | .imm16 => 0x696d6d313605d2a407a7  -- imm16
+  | .imm2u => 0x696d6d327505165c444e  -- imm2u
+  | .imm32 => 0x696d6d333205e7ffa13c  -- imm32
+  | .imm64 => 0x696d6d36340573ebf04c  -- imm64
+  | .imm8 => 0x696d6d3804df349292  -- imm8
+  | .k => 0x6b010862575d  -- k
+  | .m => 0x6d01e101f268  -- m
+  | .m128 => 0x6d3132380408d3938a  -- m128
+  | .m16 => 0x6d313603b6a9134a  -- m16
+  | .m256 => 0x6d32353604a26c9613  -- m256
+  | .m32 => 0x6d33320383f2b5d1  -- m32
+  | .m512 => 0x6d35313204c422818b  -- m512
+  | .m64 => 0x6d36340317e6e4a1  -- m64
+  | .m8 => 0x6d3802b988bf8b  -- m8
+  | .r16 => 0x72313603a1d3f707  -- r16
+  | .r32 => 0x723332039488519c  -- r32
+  | .r64 => 0x72363403009c00ec  -- r64
+  | .r8 => 0x72380274d2b115  -- r8
+  | .rax => 0x726178038a0cc6c4  -- rax
+  | .rel32 => 0x72656c33320534b94577  -- rel32
+  | .rel8 => 0x72656c38044f2422f5  -- rel8
+  | .vm32x => 0x766d33327805ec7f3b1a  -- vm32x
+  | .vm32y => 0x766d333279059b780b8c  -- vm32y
+  | .vm32z => 0x766d33327a0502715a36  -- vm32z
+  | .vm64x => 0x766d36347805bcee5e77  -- vm64x
+  | .vm64y => 0x766d36347905cbe96ee1  -- vm64y
+  | .vm64z => 0x766d36347a0552e03f5b  -- vm64z
+  | .xmm => 0x786d6d0346f3e8f5  -- xmm
+  | .xmm0 => 0x786d6d3004394a2a5a  -- xmm0
+  | .ymm => 0x796d6d03473182c2  -- ymm
+  | .zmm => 0x7a6d6d0345773c9b  -- zmm
 
 def OpClass.ofChecker (n : Nat) : Option OpClass := OpClass.all.find? (fun c => c.checker == n)
 def OpClass.ofDoc (n : Nat) : Option OpClass := OpClass.all.find? (fun c => c.doc == n)
@@ -428,7 +435,7 @@ structure CtorRow where
   sfxConsts : List Nat   -- identifiers in the suffix literal
   args : List Nat        -- identifiers of the slice literal `[]operand.Op{…}`, or [ident] when the slice itself is passed
   argsIsSlice : Bool     -- third argument is an identifier (the variadic parameter) rather than a literal
-  doc : List Nat         -- "Forms:" rows, runs of blanks collapsed to one space
+  doc : List (List Nat)  -- "Forms:" rows, each split at blanks into words (mnemonic first)
   deriving DecidableEq, Repr, Inhabited
 
 /-- A Context method or a package-level function of build/zinstructions.go. -/
@@ -442,19 +449,19 @@ structure WrapRow where
   callee : Nat           -- x86.<callee> / ctx.<callee>
   args : List Nat
   spread : Bool          -- `ops...`
-  doc : List Nat
+  doc : List (List Nat)
   deriving DecidableEq, Repr, Inhabited
 
-def nBuild := 0x6275696c64            -- build
-def nForms := 0x466f726d73            -- Forms
-def nSffxs := 0x7366667873            -- sffxs
-def nC := 0x63                        -- c
-def nCtx := 0x637478                  -- ctx
-def nAddinstruction := 0x616464696e737472756374696f6e  -- addinstruction
-def nX86 := 0x783836                  -- x86
-def nUnderscore := 0x5f
-def nDot := 0x2e
-def nSpace := 0x20
+def nBuild := 0x6275696c6405bda0f2db            -- build
+def nForms := 0x466f726d73053cfe34f3            -- Forms
+def nSffxs := 0x73666678730504ada137            -- sffxs
+def nC := 0x630106b9df6f                    -- c
+def nCtx := 0x63747803a05de997                -- ctx
+def nAddinstruction := 0x616464696e737472756374696f6e0e354aa09d  -- addinstruction
+def nX86 := 0x783836037d86c998                -- x86
+def nUnderscore := 0x5f0129d6a3e8                    -- _
+def nDot := 0x2e010ed4e242                    -- .
+def nSpace := 0x2001e96ccf45                    -- (space)
 
 /-- index of an identifier in an enum's identifier list, as its code -/
 def codeOf (ids : List Nat) (id : Nat) : Nat :=
